@@ -32,8 +32,11 @@ def sensitivity(cls):
     1 = the order of independent effects (calls, appends), 2 = everything (a sequence, a pick, state carried between iterations)."""
     if cls.startswith(("collect:set", "reduce:", "sorted")):
         return 0
-    if cls in ("loop:calls-only", "for_each:extend"):
+    if cls == "loop:calls-only":
         return 1
+    if cls in ("for_each:extend", "collect:sequence"):
+        # appending every element to a sequence in iteration order, and collecting the iteration into a sequence, expose the same
+        return 1.5
     return 2
 
 
